@@ -7,7 +7,7 @@ import os, sys, json, time, re, shutil, concurrent.futures, importlib
 
 VERIF = os.path.dirname(os.path.dirname(os.path.abspath(__file__)))
 sys.path.insert(0, VERIF)
-from vfx import core, replay
+from vfx import core, replay, intwp
 from vfx.core import log
 
 TRUSTED_BASE = [
@@ -31,6 +31,8 @@ def run_property(pid, tier='quick', seed=0):
     t0 = time.time()
     bind = importlib.import_module('spec.bind')
     units = [u for u in bind.units(pid) if tier == 'thorough' or u.tier == 'quick']
+    if os.environ.get('VF_UNITS'):
+        units = [u for u in units if re.search(os.environ['VF_UNITS'], u.id)]
     skipped = [u.id for u in bind.units(pid) if not (tier == 'thorough' or u.tier == 'quick')]
     info = bind.PROPS[pid]
     workdir = os.path.join(core.BUILD, 'work', pid)
@@ -41,7 +43,8 @@ def run_property(pid, tier='quick', seed=0):
         core.get_ast(cfg)
     results = []
     with concurrent.futures.ThreadPoolExecutor(max_workers=core.NCPU) as tp:
-        futs = {tp.submit(core.solve_unit, u, workdir, seed): u for u in units}
+        futs = {(tp.submit(intwp.solve_unit_int, u, workdir, core, seed) if u.engine == 'int' else
+                 tp.submit(core.solve_unit, u, workdir, seed)): u for u in units}
         for f in concurrent.futures.as_completed(futs):
             u = futs[f]
             try:
@@ -142,13 +145,19 @@ def run_property(pid, tier='quick', seed=0):
     for (u, r, o) in violations:
         os.makedirs(rdir, exist_ok=True)
         m = r['meta']
-        tr, err = core.get_trace(u, r['binary'], o['name'], o['backend'])
+        if u.engine == 'int':
+            tr, err = ({'inputs': {}, 'raw_tail': 'SMT model: %s' % o.get('inputs')}, None)
+        else:
+            tr, err = core.get_trace(u, r['binary'], o['name'], o['backend'])
         rp = {'property': pid, 'unit': u.id, 'obligation': o['name'], 'description': o['desc'],
               'function': m['qualname'], 'signature': m['type'], 'source': m['src'][:2] if m['src'] else None,
               'extracted_c_line': o.get('line'), 'in_function': o.get('function'),
               'params': m['params'], 'ret': m['ret'], 'cxx': u.cxx, 'pre': u.pre, 'post': u.post, 'lemma': u.lemma,
               'cfg': u.cfg, 'backend': o['backend'], 'inputs': {}, 'solver_output': ''}
-        if tr:
+        if u.engine == 'int':
+            rp['inputs'] = o.get('inputs', {})
+            rp['solver_output'] = 'sat (counterexample) from %s for obligation %s: %s' % (o['backend'], o['name'], o['desc'])
+        elif tr:
             rp['inputs'] = {k: replay.value_bits(v) for k, v in tr['inputs'].items()}
             rp['solver_output'] = json.dumps(tr['raw_tail'])[:6000]
         else:
